@@ -110,6 +110,13 @@ func (d *deferError) Error() error {
 	if d.errCh == nil {
 		panic("waiting for response on nil channel")
 	}
+	// A result that is already there wins over a shutdown, so that a future
+	// keeps the outcome it resolved with.
+	select {
+	case d.err = <-d.errCh:
+		return d.err
+	default:
+	}
 	select {
 	case d.err = <-d.errCh:
 	case <-d.ShutdownCh:
